@@ -48,12 +48,22 @@ def run_one(job):
     rel, prop, tier, procs, seed, scale = job
     env = dict(os.environ, VERIF_PROCS=str(procs), VERIF_SEED=str(seed), VERIF_SHRINK_S="20")
     t0 = time.time()
-    p = subprocess.run([os.path.join(HERE, "tools", "mutant_run.sh"), os.path.join(HERE, rel), prop, "--tier", tier, "--scale", str(scale)], env=env, capture_output=True, text=True)
-    out = p.stdout + p.stderr
+    cmd = [os.path.join(HERE, "tools", "mutant_run.sh"), os.path.join(HERE, rel), prop, "--tier", tier, "--scale", str(scale)]
+    p = subprocess.Popen(cmd, env=env, stdout=subprocess.PIPE, stderr=subprocess.STDOUT, text=True, start_new_session=True)
+    try:
+        out, _ = p.communicate(timeout=1800)
+        rc = p.returncode
+    except subprocess.TimeoutExpired:
+        import signal
+
+        os.killpg(p.pid, signal.SIGKILL)
+        out, _ = p.communicate()
+        rc = -9
+        out = (out or "") + "\nSELFTEST-TIMEOUT"
     viol = [l for l in out.splitlines() if l.startswith("VIOLATION")]
     buckets = [l.strip()[:200] for l in out.splitlines() if l.startswith("  bucket ")]
-    return dict(mutant=rel, property=prop, rc=p.returncode, caught=(p.returncode == 1 and bool(viol)), wall_s=round(time.time() - t0, 1), buckets=buckets[:4],
-                tail=out.strip().splitlines()[-2:] if p.returncode not in (0, 1) else [])
+    return dict(mutant=rel, property=prop, rc=rc, caught=(rc == 1 and bool(viol)), wall_s=round(time.time() - t0, 1), buckets=buckets[:4],
+                tail=out.strip().splitlines()[-2:] if rc not in (0, 1) else [])
 
 
 def main():
@@ -64,6 +74,7 @@ def main():
     ap.add_argument("--tier", default="quick")
     ap.add_argument("--seed", type=int, default=1)
     ap.add_argument("--match")
+    ap.add_argument("--resume", action="store_true", help="skip mutants already recorded in mutants/SELFTEST.json")
     ap.add_argument("--scale", type=float, default=1.0, help="fraction of the tier's example counts (a mutant missed at a reduced scale is re-run at 1.0)")
     args = ap.parse_args()
     want = set(args.props.split(",")) if args.props else None
@@ -78,32 +89,42 @@ def main():
             if not os.path.exists(os.path.join(HERE, "vlib", "props", prop + ".py")):
                 continue
             jobs.append((rel, prop, args.tier, args.procs, args.seed, args.scale))
-    res = []
+    path = os.path.join(HERE, "mutants", "SELFTEST.json")
+    import threading
+
+    lock = threading.Lock()
+    done = {}
+    if os.path.exists(path):
+        done = {(r["mutant"], r["property"]): r for r in json.load(open(path))["results"]}
+    if args.resume:
+        jobs = [j for j in jobs if (j[0], j[1]) not in done]
+
+    def save():
+        allr = sorted((r for r in done.values() if os.path.exists(os.path.join(HERE, r["mutant"]))), key=lambda r: (r["property"], r["mutant"]))
+        summ = {}
+        for r in allr:
+            s_ = summ.setdefault(r["property"], dict(caught=0, missed=0))
+            s_["caught" if r["caught"] else "missed"] += 1
+        tmp = path + ".tmp"
+        json.dump(dict(tier=args.tier, summary=summ, results=allr), open(tmp, "w"), indent=1)
+        os.replace(tmp, path)
+        return summ
+
     def run_two(job):
         r = run_one(job)
         if not r["caught"] and r["rc"] == 0 and job[5] < 1.0:
             r = run_one(job[:5] + (1.0,))
             r["rerun_at_full_scale"] = True
         r["scale"] = job[5] if not r.get("rerun_at_full_scale") else 1.0
+        with lock:
+            done[(r["mutant"], r["property"])] = r
+            save()
+            print(("CAUGHT " if r["caught"] else "MISSED ") + f"{r['property']} {r['mutant']} rc={r['rc']} {r['wall_s']}s {r['buckets'][:1]} {r['tail']}", flush=True)
         return r
 
     with cf.ThreadPoolExecutor(args.jobs) as ex:
-        for r in ex.map(run_two, jobs):
-            res.append(r)
-            print(("CAUGHT " if r["caught"] else "MISSED ") + f"{r['property']} {r['mutant']} rc={r['rc']} {r['wall_s']}s {r['buckets'][:1]} {r['tail']}", flush=True)
-    path = os.path.join(HERE, "mutants", "SELFTEST.json")
-    old = {}
-    if os.path.exists(path):
-        old = {(r["mutant"], r["property"]): r for r in json.load(open(path))["results"]}
-    for r in res:
-        old[(r["mutant"], r["property"])] = r
-    allr = sorted(old.values(), key=lambda r: (r["property"], r["mutant"]))
-    summ = {}
-    for r in allr:
-        s = summ.setdefault(r["property"], dict(caught=0, missed=0))
-        s["caught" if r["caught"] else "missed"] += 1
-    json.dump(dict(tier=args.tier, summary=summ, results=allr), open(path, "w"), indent=1)
-    print(json.dumps(summ))
+        list(ex.map(run_two, jobs))
+    print(json.dumps(save()))
 
 
 if __name__ == "__main__":
